@@ -34,10 +34,12 @@ def pairs(seed):
         (f"{a}.zo", f"{b}.zo"),    # names given with extension
         ("todo.zo", "tasks.zo"),   # base name ends in characters of the extension
         ("zoo", "buzz"),
+        (f"ABS:{a}.zo", f"ABS:{b}.zo"),  # absolute paths under the notes directory
     ]
 
 
 def link_name(x: str) -> str:
+    x = x[4:] if x.startswith("ABS:") else x
     return x[:-3] if x.endswith(".zo") else x
 
 
@@ -97,7 +99,9 @@ def _run_case(ctx, case) -> F.Outcome:
     try:
         b_rel = link_name(B) + ".zo"
         (zd / b_rel).parent.mkdir(parents=True, exist_ok=True)
-        r = H.run_cli(zd, "file", "rename", A, B)
+        argA = str(zd / A[4:]) if A.startswith("ABS:") else A
+        argB = str(zd / B[4:]) if B.startswith("ABS:") else B
+        r = H.run_cli(zd, "file", "rename", argA, argB)
         after = Z.snapshot(zd, with_meta=False)
         a_rel = link_name(A) + ".zo"
         want = {}
@@ -158,7 +162,7 @@ def run(ctx: F.Ctx):
     rep = F.explore(ctx, cases, lambda c: _run_case(ctx, c), sample=lambda c: _sample(ctx, c), twice_every=151)
     meta = {
         "rule": (
-            "8 renames (plain, B extends A, A extends B, inside a sub-directory, into a "
+            "9 renames (absolute paths; plain, B extends A, A extends B, inside a sub-directory, into a "
             "sub-directory, names given with .zo, base names ending in o / z) x every subset of size <= 2 (quick) / <= 3 "
             "(thorough) of 13 link texts confusable with A ([[A]], [[A#anc]], twice on a line, "
             "[[Ax]], [[xA]], [[A/sub]], [[up/A]], [[A.zo]], [A], [[ A]], ((A)), the bare word, "
